@@ -5,18 +5,19 @@ variable {R : Type} [CapOps R]
 
 /-- only the consumer-side tables (consumers, projects, users, consumer types) differ -/
 def ConsOnly (db d : DB R) : Prop :=
-  d.rps = db.rps ∧ d.invs = db.invs ∧ d.allocs = db.allocs ∧ d.rcs = db.rcs
+  d.rps = db.rps ∧ d.invs = db.invs ∧ d.allocs = db.allocs ∧ d.rcs = db.rcs ∧ d.nextRp = db.nextRp
 
-theorem ConsOnly.refl (db : DB R) : ConsOnly db db := ⟨rfl, rfl, rfl, rfl⟩
+theorem ConsOnly.refl (db : DB R) : ConsOnly db db := ⟨rfl, rfl, rfl, rfl, rfl⟩
 theorem ConsOnly.trans {a b c : DB R} (h1 : ConsOnly a b) (h2 : ConsOnly b c) : ConsOnly a c :=
-  ⟨h2.1.trans h1.1, h2.2.1.trans h1.2.1, h2.2.2.1.trans h1.2.2.1, h2.2.2.2.trans h1.2.2.2⟩
+  ⟨h2.1.trans h1.1, h2.2.1.trans h1.2.1, h2.2.2.1.trans h1.2.2.1, h2.2.2.2.1.trans h1.2.2.2.1,
+    h2.2.2.2.2.trans h1.2.2.2.2⟩
 
 theorem ensureConsumer_frame (cfg : Config) (db : DB R) (mv : Nat) (c : ConsumerReq) :
     ConsOnly db (ensureConsumer cfg db mv c).1 := by
   unfold ensureConsumer
   dsimp only
   repeat' split
-  all_goals exact ⟨rfl, rfl, rfl, rfl⟩
+  all_goals exact ⟨rfl, rfl, rfl, rfl, rfl⟩
 
 theorem ensureConsumer_err {cfg : Config} {db db1 : DB R} {mv : Nat} {c : ConsumerReq} {r : Resp}
     (h : ensureConsumer cfg db mv c = (db1, .error r)) : r.ok = false := by
@@ -30,10 +31,10 @@ theorem updateConsumer_frame (db : DB R) (cons : ConsRow) (a : ReqAttr) :
   unfold updateConsumer
   dsimp only
   repeat' split
-  all_goals exact ⟨rfl, rfl, rfl, rfl⟩
+  all_goals exact ⟨rfl, rfl, rfl, rfl, rfl⟩
 
 theorem deleteConsumerRows_frame (db : DB R) (ids : List Nat) :
-    ConsOnly db (deleteConsumerRows db ids) := ⟨rfl, rfl, rfl, rfl⟩
+    ConsOnly db (deleteConsumerRows db ids) := ⟨rfl, rfl, rfl, rfl, rfl⟩
 
 theorem updateConsumers_frame (db : DB R) (l : List (ConsumerReq × ConsRow × ReqAttr)) :
     ConsOnly db (updateConsumers db l) := by
@@ -267,7 +268,7 @@ theorem write_safe {db d1 d2 db' : DB R} (h1 : ConsOnly db d1) (h2 : ConsOnly db
   have hrp' : db.rpByUuid x.1 = some rp := by
     simpa only [DB.rpByUuid, h1.1] using hrp
   have hrc' : db.rcId x.2.1 = some (rcOf d2 a) := by
-    rw [← e2]; simpa only [DB.rcId, h2.2.2.2] using hrc
+    rw [← e2]; simpa only [DB.rcId, h2.2.2.2.1] using hrc
   obtain ⟨⟨i, hi, hi1, hi2⟩, hall⟩ :=
     setAllocations_safe_all hs hnn (h2.invKeys hu) a ha (by omega) _ hrc
   have hfit := hall i hi hi1 hi2
